@@ -104,16 +104,21 @@ pub fn measure(
             let g2 = grouped(&rs, &cols);
             let mut sq = vec![0.0f64; cols.len()];
             let keys: BTreeSet<&Vec<String>> = base[i].keys().chain(g2.keys()).collect();
+            if !fixed_keys[i] && keys.iter().any(|k| base[i].get(*k).is_none() || g2.get(*k).is_none()) {
+                // Removing this unit changed the *released key set* S. The sensitivity of the
+                // aggregate mechanism is defined for a fixed S (it is composed after the key
+                // release): every unit's clipping norm is taken over the groups in S, so with
+                // S(D) != S(D') even other units' clipped contributions differ - which is the
+                // key-release mechanism's business, not this one's. Such a unit is not measured
+                // for this map (counted); seen as a false alarm of an earlier version that only
+                // dropped the non-common groups (seed 104, run 261).
+                excluded += 1;
+                per_map.push(vec![f64::NAN; cols.len()]);
+                continue;
+            }
             for k in keys {
                 let a = base[i].get(k);
                 let b = g2.get(k);
-                if !fixed_keys[i] && (a.is_none() || b.is_none()) {
-                    // the released key set differs: the sensitivity of the aggregate mechanism is
-                    // defined for a fixed key set, so groups outside the intersection are not
-                    // attributed to it (sound; counted)
-                    excluded += 1;
-                    continue;
-                }
                 for j in 0..cols.len() {
                     let x = a.map(|v| v[j]).unwrap_or(0.0);
                     let y = b.map(|v| v[j]).unwrap_or(0.0);
@@ -149,7 +154,18 @@ pub fn check(sc: &Scenario, ex: &mut Exec) -> (Verdict, Option<String>) {
         return (Verdict::Skip("unrecognised_noise_pattern".into()), None);
     }
     let thr_names: Vec<String> = scan.thresholds.iter().map(|t| t.noise.map.name().to_string()).collect();
-    let agg_maps: Vec<&NoiseMap> = scan.noise_maps.iter().filter(|m| !thr_names.contains(&m.map.name().to_string())).collect();
+    let all_agg: Vec<&NoiseMap> = scan.noise_maps.iter().filter(|m| !thr_names.contains(&m.map.name().to_string())).collect();
+    // nested DP aggregations: the outer mechanism's sensitivity is defined for a fixed (released)
+    // result of the inner one, which coupled executions on D and D' cannot hold fixed - only the
+    // innermost aggregate noise maps are measured (the others are counted)
+    let agg_maps: Vec<&NoiseMap> = all_agg
+        .iter()
+        .cloned()
+        .filter(|m| !all_agg.iter().any(|o| o.map.name() != m.map.name() && ir::contains_node(&m.input, &o.map)))
+        .collect();
+    if agg_maps.len() < all_agg.len() {
+        ex.stats.probe_n("outer_noise_maps_of_nested_aggregations_not_measured", (all_agg.len() - agg_maps.len()) as u64);
+    }
     let thr_maps: Vec<&NoiseMap> = scan.noise_maps.iter().filter(|m| thr_names.contains(&m.map.name().to_string())).collect();
     if agg_maps.is_empty() && thr_maps.is_empty() {
         return (Verdict::Skip("no_noise_in_rewriting".into()), None);
@@ -171,7 +187,7 @@ pub fn check(sc: &Scenario, ex: &mut Exec) -> (Verdict, Option<String>) {
         Ok(m) => m,
         Err(e) => return (Verdict::Skip(format!("engine_gap:{}", short(&e))), None),
     };
-    ex.stats.probe_n("groups_outside_common_key_set", measured.excluded_groups);
+    ex.stats.probe_n("unit_removals_that_changed_the_released_key_set", measured.excluded_groups);
 
     let mut violations = vec![];
     let n_red = count_reduces(&compiled.original).max(1) as f64;
@@ -190,6 +206,9 @@ pub fn check(sc: &Scenario, ex: &mut Exec) -> (Verdict, Option<String>) {
             let is_thr = mi >= n_agg;
             for (j, c) in m.cols.iter().enumerate() {
                 let d = per_map[mi][j];
+                if d.is_nan() {
+                    continue; // released key set changed with this unit: not measurable (see measure)
+                }
                 if d > 0.0 {
                     any_positive = true;
                 }
